@@ -22,7 +22,7 @@ inductive Expr where
   | col (i : Nat)
   | lit (v : SV)
   | neg (e : Expr)
-  | add (a b : Expr) | sub (a b : Expr) | mul (a b : Expr) | div (a b : Expr)
+  | add (a b : Expr) | sub (a b : Expr) | mul (a b : Expr) | div (a b : Expr) | mod (a b : Expr)
   | eq (a b : Expr) | ne (a b : Expr) | lt (a b : Expr) | le (a b : Expr) | gt (a b : Expr) | ge (a b : Expr)
   | and (a b : Expr) | or (a b : Expr) | not (e : Expr)
   | isNull (e : Expr) | isNotNull (e : Expr)
@@ -39,18 +39,26 @@ inductive Err | typeMismatch
 
 /-! ### the implementation's evaluation, operator class by operator class -/
 
-inductive Arith | add | sub | mul | div
+inductive Arith | add | sub | mul | div | mod
   deriving DecidableEq, Repr
 inductive Cmp | eq | lt | le | gt | ge
   deriving DecidableEq, Repr
+
+/-- truncation toward zero -/
+def truncR (q : Rat) : Int := if 0 ≤ q then q.floor else -((-q).floor)
+
+/-- the remainder of a truncated division: `x - y * trunc(x / y)` (`math.fmod`; the sign is the dividend's) -/
+def ratRem (x y : Rat) : Rat := x - y * (truncR (x / y) : Rat)
 
 def ratArith (op : Arith) (x y : Rat) : SV :=
   match op with
   | .add => .dbl (x + y) | .sub => .dbl (x - y) | .mul => .dbl (x * y)
   | .div => if y = 0 then .null else .dbl (x / y)
+  | .mod => if y = 0 then .null else .dbl (ratRem x y)
 
-/-- `NullSafeBinaryOperation.eval` for + - * / : null if an operand is null, both operands of the same
-class or both numeric, Python arithmetic (`/` is true division, `x / 0` is null) -/
+/-- `NullSafeBinaryOperation.eval` for + - * / % : null if an operand is null, both operands of the same
+class or both numeric, Python arithmetic (`/` is true division, `x / 0` and `x % 0` are null; `%` (REPAIRED) is the
+remainder of the truncated division, as in SQL: its sign is the dividend's) -/
 def arithM (op : Arith) (a b : SV) : Except Err SV :=
   match a, b with
   | .null, _ => .ok .null
@@ -58,7 +66,8 @@ def arithM (op : Arith) (a b : SV) : Except Err SV :=
   | .int x, .int y =>
       (match op with
        | .add => .ok (.int (x + y)) | .sub => .ok (.int (x - y)) | .mul => .ok (.int (x * y))
-       | .div => .ok (if y = 0 then .null else .dbl ((x : Rat) / (y : Rat))))
+       | .div => .ok (if y = 0 then .null else .dbl ((x : Rat) / (y : Rat)))
+       | .mod => .ok (if y = 0 then .null else .int (Int.tmod x y)))
   | .int x, .dbl y => .ok (ratArith op x y)
   | .dbl x, .int y => .ok (ratArith op x y)
   | .dbl x, .dbl y => .ok (ratArith op x y)
@@ -132,6 +141,7 @@ def evalM (r : Row) : Expr → Except Err SV
   | .sub a b => do arithM .sub (← evalM r a) (← evalM r b)
   | .mul a b => do arithM .mul (← evalM r a) (← evalM r b)
   | .div a b => do arithM .div (← evalM r a) (← evalM r b)
+  | .mod a b => do arithM .mod (← evalM r a) (← evalM r b)
   | .eq a b => do cmpM .eq (← evalM r a) (← evalM r b)
   | .ne a b => do return notM (← cmpM .eq (← evalM r a) (← evalM r b))         -- Invert(Equal(a, b))
   | .lt a b => do cmpM .lt (← evalM r a) (← evalM r b)
@@ -179,7 +189,8 @@ def arithS (op : Arith) (a b : SV) : SV :=
   | .int x, .int y =>
       (match op with
        | .add => .int (x + y) | .sub => .int (x - y) | .mul => .int (x * y)
-       | .div => if y = 0 then .null else .dbl ((x : Rat) / y))
+       | .div => if y = 0 then .null else .dbl ((x : Rat) / y)
+       | .mod => if y = 0 then .null else .int (Int.tmod x y))
   | a, b =>
     match num? a, num? b with
     | some x, some y => ratArith op x y
@@ -219,6 +230,7 @@ def evalS (r : Row) : Expr → SV
   | .sub a b => arithS .sub (evalS r a) (evalS r b)
   | .mul a b => arithS .mul (evalS r a) (evalS r b)
   | .div a b => arithS .div (evalS r a) (evalS r b)
+  | .mod a b => arithS .mod (evalS r a) (evalS r b)
   | .eq a b => cmpS .eq (evalS r a) (evalS r b)
   | .ne a b => notS (cmpS .eq (evalS r a) (evalS r b))
   | .lt a b => cmpS .lt (evalS r a) (evalS r b)
@@ -244,7 +256,7 @@ inductive HasTy (cols : List Ty) : Expr → Ty → Prop where
   | litNull (t : Ty) : HasTy cols (.lit .null) t
   | neg (e : Expr) (t : Ty) : t = .int ∨ t = .dbl → HasTy cols e t → HasTy cols (.neg e) t
   | arith (mk : Expr → Expr → Expr) (a b : Expr) (ta tb : Ty) :
-      mk = Expr.add ∨ mk = Expr.sub ∨ mk = Expr.mul → (ta = .int ∨ ta = .dbl) → (tb = .int ∨ tb = .dbl) →
+      mk = Expr.add ∨ mk = Expr.sub ∨ mk = Expr.mul ∨ mk = Expr.mod → (ta = .int ∨ ta = .dbl) → (tb = .int ∨ tb = .dbl) →
       HasTy cols a ta → HasTy cols b tb → HasTy cols (mk a b) (if ta = .int ∧ tb = .int then .int else .dbl)
   | div (a b : Expr) (ta tb : Ty) : (ta = .int ∨ ta = .dbl) → (tb = .int ∨ tb = .dbl) →
       HasTy cols a ta → HasTy cols b tb → HasTy cols (.div a b) .dbl
